@@ -59,6 +59,10 @@ CLAIMED = {
    text="For all 15 CollectiveMessage families and every older protocol version N in {2,3,5,6,7}, to_version_N(from_version_N(v)) is evaluated symbolically for an arbitrary canonical version-N value v (395 shape cases: every enum variant, Option, optional flag member; vector elements universally quantified; helpers, closures and generated flag-struct methods interpreted from their own bodies) and must be structurally identical to v. The six protocol-parameterised default methods and six expect_*_message_protocol helpers must dispatch ProtocolVersion::K to exactly from_version_K(VersionK::read)/to_version_K().write of the same flavour, and each normalised VersionK associated type must be the type version K's own opcode enum carries (75 pairs), so the protocol API and version K's codec are the same function.",
    note="canonical values only (raw flag bits equal the members present); version-K codecs themselves are decided by C01/C06; std Clone/map/collect modelled by contract",
    ref="§3 C14"),
+ "C13": dict(level="other", tech="three-way table agreement (update-mask.md / generator FIELDS consts / generated accessors) where each accessor's effect is extracted by a bounded abstract interpreter over typed HIR (token-valued arguments, concrete offsets) + row-disjointness frame argument + who-may-write rule + interpreted write/read/size/dirty cycle",
+   text="For the three expansions the 864 published table rows equal the generator's field table; every one of the 3,720 generated accessors is interpreted abstractly on a fresh object (every index value of indexed fields): the words a setter writes must be exactly the row's words with header and dirty bits of exactly those words set, the getter must return the arguments, builder setters must have the same effect; rows of one object kind must be disjoint, which (with all mutations funnelled through header_set) makes 'a getter returns the value last set for its field' hold for every sequence of setters; new/set/write/read-back (object-kind dispatch)/size/dirty_reset/mark_fully_dirty are interpreted for all 7 kinds x 3 expansions and compared with the documented wire form (block count, header&dirty blocks, dirty present words in ascending index).",
+   note="BTreeMap/Vec/integer primitives are modelled by their std contracts; histories are decided through the per-accessor frame argument, not enumerated; two design-level defects are known findings (multi-word INT rows, overlapping rows in the TBC/Wrath tables), one defect (set_shorts/get_shorts order) was repaired by a fix: commit",
+   ref="§3 C13"),
 }
 NA_REASONS = {}
 DEFAULT_NA = "check under construction in this round (see DESIGN.md); will be claimed once its rule module is committed"
